@@ -34,11 +34,11 @@ type triggerIter struct {
 }
 
 func (b *BaseBuilder) buildTriggerExecutor(ctx *sql.Context, n *plan.TriggerExecutor, row sql.Row) (sql.RowIter, error) {
-	childIter, err := b.buildNodeExec(ctx, n.Left, row)
+	childIter, err := b.buildNodeExec(ctx, n.Left(), row)
 	if err != nil {
 		return nil, err
 	}
-	return &triggerIter{child: childIter, executionLogic: n.Right, b: b}, nil
+	return &triggerIter{child: childIter, executionLogic: n.Right(), b: b}, nil
 }
 
 // Next — planted: the logic is built on the named result `row` (nil) instead of the child's row (T2); the drain loop
@@ -78,7 +78,21 @@ func (t *triggerIter) Next(ctx *sql.Context) (row sql.Row, returnErr error) {
 	return childRow, nil
 }
 
-func (t *triggerIter) Close(ctx *sql.Context) error { return t.child.Close(ctx) }
+// Close — planted: the error of closing the child (the DML's editor iterator under an AFTER executor) is dropped.
+func (t *triggerIter) Close(ctx *sql.Context) error {
+	_ = t.child.Close(ctx)
+	return nil
+}
+
+// prependRowForTriggerExecutionSelector — planted: skips the wrapped child instead of the logic.
+func prependRowForTriggerExecutionSelector(ctx plan.TransformCtx) bool {
+	switch p := ctx.Parent.(type) {
+	case *plan.TriggerExecutor:
+		return !(p.Left() == ctx.Node)
+	default:
+		return true
+	}
+}
 
 type triggerBlockIter struct {
 	b          *BaseBuilder
